@@ -323,6 +323,33 @@ def _(ctx):
            (want, np.diagonal(M, axis1=1, axis2=2), np.stack([v, v * 2.0], axis=1), np.hstack((v, v[0])), v.ravel())
 
 
+@case("basic slices are views: stores and in-place operations through a slice change the array")
+def _(ctx):
+    x = ints(6).astype(float)
+    a = sym(ctx, x).copy()
+    want = x.copy()
+    v = a[1:4]
+    v += 10.0
+    w = want[1:4]
+    w += 10.0
+    v2 = a[2:]
+    v2[0] = -1.0
+    w2 = want[2:]
+    w2[0] = -1.0
+    M = RNG.normal(0, 1, size=(3, 4)).round(2)
+    m = sym(ctx, M, "Mv").copy()
+    wm = M.copy()
+    col = m[:, 1]
+    col *= 2.0
+    wcol = wm[:, 1]
+    wcol *= 2.0
+    c = a[[0, 1]]          # fancy indexing copies
+    c += 5.0
+    wc = want[[0, 1]]
+    wc += 5.0
+    return (a, m, c), (want, wm, wc)
+
+
 @case("zeros / full / arange / zeros_like / ones_like / empty shape")
 def _(ctx):
     n = int(RNG.integers(1, 5))
